@@ -4,11 +4,11 @@ from . import C12
 
 SPEC = make("C03", "Properties.C03", ['C03_no_overrun', 'C03_window_respected', 'C03_credit_equation', 'C03_one_write_one_credit', 'C03_write_refused_no_effect', 'C03_reachable_inv',
                                       'C03_racing_writers_conservation', 'C03_racing_writers_no_overdraw', 'C03_racing_writer_takes_one', 'C03_write_projects', 'C03_acknowledge_projects', 'C03_push_projects', 'C03_pair_flow_invariants'],
-            [("pair", "single", 0.6), ("pair", "", 0.4)],
+            [("pair", "single", 0.5), ("pair", "", 0.35), ("pair", "bridge", 0.15)],
             COMMON_RULE + "For this property additionally: single-flow scripts (one established stream, then only reads / "
             "plain, vectored and empty writes / shutdowns and message-by-message deliveries, 40-120 labels) whose read and "
             "write results are also compared with the one-direction flow model Flow/Core.v on which the multi-step "
-            "theorems are proved; and two writers sharing one stream (legal: poll_write_push takes &self) racing for credit "
+            "theorems are proved; bridge scripts (the stream-to-socket bridge coalesces ready chunks into one frame: one credit per frame whatever the size, chunks of up to 70 kB); and two writers sharing one stream (legal: poll_write_push takes &self) racing for credit "
             "with each other, an acknowledge and a close on loom threads (programs Wa|Wb, Wa|Wb|K, Wa|Wb|D, credit 0..2): "
             "the set of final outcomes over every C11 execution must equal the set computed by Atomic/TwoWriters.v, and every "
             "outcome must conserve credit.", "DESIGN.md §5 C03", flow=True)
